@@ -100,6 +100,15 @@ DivSmallR(a, k, i, r, acc) ==
          IN  DivSmallR(a, k, i - 1, t % k, <<t \div k>> \o acc)
 DivSmall(a, k) == Norm(DivSmallR(a, k, Len(a), 0, <<>>))
 
+\* is a a multiple of 2^bits ?
+DivisibleByPow2(a, bits) ==
+    LET q == bits \div LBits
+        r == bits % LBits
+    IN  \/ Len(a) = 0
+        \/ /\ Len(a) > q
+           /\ \A i \in 1..q : a[i] = 0
+           /\ a[q + 1] % (2 ^ r) = 0
+
 \* little-endian byte sequence -> BigNat.  Limb j holds bits [LBits*j, LBits*(j+1)) of the number; they lie
 \* in at most three consecutive bytes (LBits <= 15), which are combined natively (below 2^24).
 ByteAt(bytes, q) == IF q <= Len(bytes) THEN bytes[q] ELSE 0
